@@ -24,7 +24,7 @@ META = {
                     "rejection loops bounded by a logical draw budget; exceeding it with natural draws is skipped (inconclusive for that case)"],
     "deciding": ["trace:placement", "trace:count-conservation", "trace:quantile", "determinism:seeded-rerun"],
 }
-META["added"] = 'Added: hostile legal-draw schedules, primitives on arrays up to 2000 bins, Fortran / transposed / strided tables and re-scaled forecasts, injected draws exactly on the lower cumulative boundary of distinct cells (0.0 for the first positive cell) for the binary and Brier simulators, weights bound (4(k+1)+2n) eps.'
+META["added"] = 'Added: hostile legal-draw schedules, primitives on arrays up to 2000 bins, Fortran / transposed / strided tables and re-scaled forecasts, injected draws exactly on the lower cumulative boundary of distinct cells (0.0 for the first positive cell) for the binary and Brier simulators, weights bound (4(k+1)+2n) eps. single-precision rate tables, one injected row per simulation for the binary tests, array-valued scale factors.'
 MANIFEST = {
     "technique": "RNG boundary log + hostile legal-draw injection + simulator boundary log, offline inverse-CDF trace checker with exact comparisons; seeded re-run determinism with scrambled global RNG state",
     "level_text": "Every simulator call made by the 7 gridded tests on generated inputs is recorded (weights, draws, returned counts) and re-derived offline by exact comparison; hostile legal draws (0, every cumulative boundary +-1ulp, largest double below 1) are injected through the RNG boundary and through random_numbers=; count conservation, zero-rate exclusion, quantile identity and seed determinism (incl. seed 0, after scrambling the global RNG) are decided on the trace.",
@@ -56,10 +56,14 @@ def rates_for(test, rates):
     return rates
 
 
-def boundary_draws(r1d):
-    """Legal draws in [0,1) adjacent to every cumulative boundary of the library's own float weights."""
+def boundary_draws(r1d, single=False):
+    """Legal draws in [0,1) adjacent to every cumulative boundary of the library's own float weights. single: the rate table is stored in
+    single precision, so the library's cumulative weights are float32 numbers (the draws stay float64: the doubles next to those boundaries)."""
     cs = numpy.cumsum(r1d.ravel())
     W = numpy.concatenate([cs / numpy.sum(r1d), cs / cs[-1]])       # both normalisations a library version may use
+    if single:
+        c32 = numpy.cumsum(r1d.ravel().astype(numpy.float32))
+        W = numpy.concatenate([W, (c32 / c32[-1]).astype(float), (c32 / numpy.sum(r1d.ravel().astype(numpy.float32))).astype(float)])
     c = numpy.concatenate([[0.0, ONE_BELOW, 0.5], W, numpy.nextafter(W, 0.0), numpy.nextafter(W, 2.0)])
     c = c[(c >= 0.0) & (c < 1.0)]
     return numpy.unique(c)
@@ -104,8 +108,10 @@ def check_weights(ctx, rc, tags, W_arg, r1d, kind):
     ref = numpy.cumsum(r1d.astype(numpy.longdouble))
     ref = (ref / ref[-1]).astype(float)
     k = numpy.arange(W.size)
+    wdt = numpy.ma.getdata(W_arg).dtype
+    eps_w = float(numpy.finfo(wdt).eps) if wdt.kind == "f" else float(numpy.finfo(float).eps)      # weights accumulated in the table's own precision
     # sequential float accumulation: relative error <= (k+1) eps at entry k, plus <= n eps from the normalising last entry, which enters every weight
-    bad = numpy.abs(W - ref) > (4.0 * (k + 1) + 2.0 * W.size) * numpy.finfo(float).eps
+    bad = numpy.abs(W - ref) > (4.0 * (k + 1) + 2.0 * W.size) * eps_w
     if bad.any():
         j = int(numpy.nonzero(bad)[0][0])
         ctx.violate("cumulative weight differs from the exact normalised cumulative rate", rc, observed={"k": j, "W": W[j]}, expected=ref[j],
@@ -192,6 +198,10 @@ def _feasible_binary(r1d, n_active):
 def ex_case(ctx, case, test="CL", num_sim=3, source="seed", seed=1, layout="C", scale=None):
     pe, be, br = _mods()
     rates = numpy.array(case["rates"], dtype=float)
+    if layout == "f32":
+        rates = rates.astype(numpy.float32).astype(float)        # a single-precision rate table: these are the rates in force
+    scale_tag = scale
+    scale = gridcases.scale_factor(scale, rates.shape, seed)
     if scale is not None:
         rates = rates * scale        # the rates in force after forecast.scale(scale)
 
@@ -206,12 +216,14 @@ def ex_case(ctx, case, test="CL", num_sim=3, source="seed", seed=1, layout="C", 
             big = numpy.zeros((rates.shape[0], rates.shape[1] * 2))
             big[:, ::2] = numpy.array(case["rates"], dtype=float)
             fore._data = big[:, ::2]
+        elif layout == "f32":
+            fore._data = fore._data.astype(numpy.float32)
         if scale is not None:
             fore.scale(scale)
         return fore, cat, reg, w
     fore, cat, reg, w = build()
     r1d = rates_for(test, rates).ravel()
-    rc = {"exec": "case", "args": {"case": case, "test": test, "num_sim": num_sim, "source": source, "seed": seed, "layout": layout, "scale": scale}}
+    rc = {"exec": "case", "args": {"case": case, "test": test, "num_sim": num_sim, "source": source, "seed": seed, "layout": layout, "scale": scale_tag}}
     ctx.current_case = rc
     n_obs = int(w.sum())
     wobs = {"S": w.sum(axis=1), "BS": w.sum(axis=1), "M": w.sum(axis=0)}.get(test, w)
@@ -228,7 +240,7 @@ def ex_case(ctx, case, test="CL", num_sim=3, source="seed", seed=1, layout="C", 
         tags["obs_in_zero_rate"] = True
     kw = {"num_simulations": num_sim}
     hostile = None
-    bd = boundary_draws(r1d)
+    bd = boundary_draws(r1d, single=(layout == "f32"))
     rgen = numpy.random.default_rng([seed, 11])
     if source == "seed":
         kw["seed"] = seed
@@ -240,26 +252,33 @@ def ex_case(ctx, case, test="CL", num_sim=3, source="seed", seed=1, layout="C", 
             if poisson:
                 rn = rgen.choice(bd, (num_sim, n_draw))
             else:
-                # injected rows must hit distinct positive cells (documented injection semantics); one simulation only
-                num_sim = kw["num_simulations"] = 1
+                # injected rows must hit distinct positive cells (documented injection semantics): one row of numbers per simulation
                 pos = numpy.nonzero(r1d > 0)[0]
-                cells = rgen.choice(pos, n_draw, replace=False)
                 cs = numpy.cumsum(r1d) / r1d.sum()
-                lo = numpy.where(cells > 0, cs[numpy.maximum(cells - 1, 0)], 0.0)
-                f = rgen.choice([0.25, 0.5, 0.75], n_draw)
-                rn = (lo + f * (cs[cells] - lo))[None, :]           # strictly inside the cell's cumulative interval
-                if seed % 2:
-                    # draws exactly ON the lower cumulative boundary F_(k-1) of each chosen cell (0.0 for the first positive cell):
-                    # [F_(k-1), F_k) is closed on the left, so they still belong to cell k
-                    csl = numpy.cumsum(r1d) / numpy.cumsum(r1d)[-1]
-                    first = int(pos[0])
-                    rn = numpy.where(cells > first, csl[numpy.maximum(cells - 1, 0)], 0.0)[None, :]
-                    tags["inject_mode"] = "lower-boundary"
-                rn = numpy.clip(rn, 0.0, ONE_BELOW)
-                for Wx in (cs, numpy.cumsum(r1d) / numpy.cumsum(r1d)[-1]):
-                    if numpy.unique(simlog.place(Wx, rn[0])).size != n_draw:     # ulp-wide cells: cannot inject distinct cells safely
-                        rn = None
+                cands = [cs, numpy.cumsum(r1d) / numpy.cumsum(r1d)[-1]]
+                csl = cands[1]
+                if layout == "f32":
+                    c32_ = numpy.cumsum(r1d.astype(numpy.float32))
+                    cands += [(c32_ / c32_[-1]).astype(float), (c32_ / numpy.sum(r1d.astype(numpy.float32))).astype(float)]
+                    csl = cands[2]
+                rows = []
+                for _q in range(num_sim):
+                    cells = rgen.choice(pos, n_draw, replace=False)
+                    lo = numpy.where(cells > 0, cs[numpy.maximum(cells - 1, 0)], 0.0)
+                    f = rgen.choice([0.25, 0.5, 0.75], n_draw)
+                    row = lo + f * (cs[cells] - lo)                  # strictly inside the cell's cumulative interval
+                    if seed % 2:
+                        # draws exactly ON the lower cumulative boundary F_(k-1) of each chosen cell (0.0 for the first positive cell):
+                        # [F_(k-1), F_k) is closed on the left, so they still belong to cell k
+                        row = numpy.where(cells > int(pos[0]), csl[numpy.maximum(cells - 1, 0)], 0.0)
+                        tags["inject_mode"] = "lower-boundary"
+                    row = numpy.clip(row, 0.0, ONE_BELOW)
+                    if any(numpy.unique(simlog.place(Wx, row)).size != n_draw for Wx in cands):   # ulp-wide cells: cannot inject distinct cells safely
+                        rows = None
                         break
+                    rows.append(row)
+                rn = numpy.array(rows) if rows else None
+                tags["injected_simulations"] = min(num_sim, 2)
             if rn is None:
                 kw["seed"] = seed
             else:
@@ -279,7 +298,7 @@ def ex_case(ctx, case, test="CL", num_sim=3, source="seed", seed=1, layout="C", 
         tot = float(rates.sum())
         for e in rl.of("poisson"):
             mean = e[1][0][0] if e[1][0] else e[1][1].get("lam")
-            if abs(float(mean) - tot) > 1e-9 * (1 + tot):
+            if abs(float(mean) - tot) > (1e-9 if layout != "f32" else 1e-5) * (1 + tot):
                 ctx.violate("L-test draws the number of events from a Poisson law whose mean is not the forecast total", rc, observed=float(mean), expected=tot, tags=tags)
                 break
         if len(pdraws) != len(sl.calls):
@@ -432,7 +451,7 @@ def run(ctx):
         for t in PTESTS + BTESTS:
             src = ["seed", "inject", "hostile"][(j + hash(t)) % 3] if j % 4 else "seed"
             ex_case(ctx, case, t, num_sim=int(r.choice([1, 2, 7])), source=src, seed=seeds[(j + len(t)) % 2],
-                    layout=["C", "F", "C", "T", "strided"][j % 5], scale=None if j % 6 != 5 else float(r.choice([0.25, 3.0])))
+                    layout=["C", "F", "C", "T", "strided", "f32", "C"][j % 7], scale=None if j % 6 != 5 else (float(r.choice([0.25, 3.0])) if j % 12 != 5 else str(r.choice(["percell", "permag", "full"]))))
         if j % 40 == 0:
             ctx.sample({"cells": case["nx"] * case["ny"], "mags": case["nmag"], "n_events": len(case["ev_cell"]),
                         "zero_rate_bins": int((numpy.array(case["rates"]) == 0).sum()), "tests": PTESTS + BTESTS, "sources": ["seed", "inject", "hostile"]})
